@@ -768,6 +768,32 @@ fn check_composition(
     }
 }
 
+// adjacency rules that hold even when whitespace or annotations separate the two tokens:
+// an operator still needs its operand
+fn check_operator_composition(previous: SecondaryDefinition, current: SecondaryDefinition, token: &LexerToken) -> Result<(), CompilerError> {
+    match (previous, current) {
+        (SecondaryDefinition::None, SecondaryDefinition::BinaryLeftToRight)
+        | (SecondaryDefinition::None, SecondaryDefinition::UnarySuffix)
+        | (SecondaryDefinition::StartGrouping, SecondaryDefinition::BinaryLeftToRight)
+        | (SecondaryDefinition::StartGrouping, SecondaryDefinition::UnarySuffix)
+        | (SecondaryDefinition::StartSideEffect, SecondaryDefinition::BinaryLeftToRight)
+        | (SecondaryDefinition::StartSideEffect, SecondaryDefinition::UnarySuffix)
+        | (SecondaryDefinition::BinaryLeftToRight, SecondaryDefinition::None)
+        | (SecondaryDefinition::BinaryLeftToRight, SecondaryDefinition::Subexpression)
+        | (SecondaryDefinition::BinaryLeftToRight, SecondaryDefinition::EndGrouping)
+        | (SecondaryDefinition::BinaryLeftToRight, SecondaryDefinition::EndSideEffect)
+        | (SecondaryDefinition::BinaryLeftToRight, SecondaryDefinition::BinaryLeftToRight)
+        | (SecondaryDefinition::BinaryLeftToRight, SecondaryDefinition::OptionalBinaryLeftToRight)
+        | (SecondaryDefinition::OptionalBinaryLeftToRight, SecondaryDefinition::BinaryLeftToRight)
+        | (SecondaryDefinition::UnaryPrefix, SecondaryDefinition::None)
+        | (SecondaryDefinition::UnaryPrefix, SecondaryDefinition::Subexpression)
+        | (SecondaryDefinition::UnaryPrefix, SecondaryDefinition::EndGrouping)
+        | (SecondaryDefinition::UnaryPrefix, SecondaryDefinition::EndSideEffect)
+        | (SecondaryDefinition::UnaryPrefix, SecondaryDefinition::BinaryLeftToRight) => composition_error(previous, current, &token),
+        _ => Ok(()),
+    }
+}
+
 const EMPTY_TOKENS: &[LexerToken] = &[];
 fn trim_tokens(tokens: &Vec<LexerToken>) -> &[LexerToken] {
     let mut start = 0;
@@ -810,6 +836,7 @@ pub fn parse(lex_tokens: &Vec<LexerToken>) -> Result<ParseResult, CompilerError>
     let mut group_stack: Vec<(usize, bool)> = vec![];
     let mut current_group = None;
     let mut previous_second_def = SecondaryDefinition::None;
+    let mut previous_significant_def = SecondaryDefinition::None;
 
     let trimmed = trim_tokens(&lex_tokens);
 
@@ -876,9 +903,16 @@ pub fn parse(lex_tokens: &Vec<LexerToken>) -> Result<ParseResult, CompilerError>
         );
 
         check_composition(previous_second_def, secondary_definition, check_for_list, token)?;
+        // operators may not face each other across whitespace or annotations either
+        if previous_second_def == SecondaryDefinition::Whitespace || previous_second_def == SecondaryDefinition::Annotation {
+            check_operator_composition(previous_significant_def, secondary_definition, token)?;
+        }
 
         // done with previous, can update now
         previous_second_def = secondary_definition;
+        if secondary_definition != SecondaryDefinition::Whitespace && secondary_definition != SecondaryDefinition::Annotation {
+            previous_significant_def = secondary_definition;
+        }
 
         let (definition, parent, left, right) = match secondary_definition {
             SecondaryDefinition::None => implementation_error("Secondary definition of none shouldn't reach check.".to_string())?,
@@ -1270,6 +1304,9 @@ pub fn parse(lex_tokens: &Vec<LexerToken>) -> Result<ParseResult, CompilerError>
     // final composition check
     // previous is def of last node
     check_composition(previous_second_def, SecondaryDefinition::None, check_for_list, &last_token)?;
+    if previous_second_def == SecondaryDefinition::Whitespace || previous_second_def == SecondaryDefinition::Annotation {
+        check_operator_composition(previous_significant_def, SecondaryDefinition::None, &last_token)?;
+    }
 
     // also make sure all groups have been closed
     if !group_stack.is_empty() {
